@@ -99,8 +99,8 @@ func C18() *vk.Check {
 			}
 		},
 		NonTrivial: func(s *sessStats) bool { return len(s.Langs) >= 2 }}
-	return &vk.Check{ID: "C18", Level: "exploration", MinEvaluations: 300, Shards: func(string) int { return 16 }, Run: func(c *vk.Ctx) { mc.run(c); c18Gettext(c) },
-		Rule:        "reference-model monitor: applications with a language switcher (results cycle through valid 2- and 3-letter codes, invalid strings and the empty string, returned with the LANG flag) loaded/reloaded at arbitrary points, translations present for random subsets of templates and labels, language configured or not, in a third of the cases with a language-dependent pre-VM function (Engine.WithFirst). Every GetCode/FuncFor/function/GetTemplate/GetMenu callback of the session must carry exactly the model's language (context value \"Language\"), State.Language in the live state and decoded stored snapshot must equal it, and each page must equal the text composed from the translation table (translation if present, default otherwise). distinct = hash(app, history, driver); non-trivial = lookups under at least two different languages were observed. Gettext leg: resource.PoResource over generated locale trees (key -> default text for random subsets of template and menu keys, default text -> translation for random subsets per registered language) against a dictionary model: every (key, kind, context language) lookup - language absent, default, registered, never registered - must return the translation if one exists and the default-language text otherwise.",
+	return &vk.Check{ID: "C18", Level: "exploration", MinEvaluations: 300, Shards: func(string) int { return 16 }, Run: func(c *vk.Ctx) { mc.run(c); c18Gettext(c); c18DbStack(c) },
+		Rule:        "reference-model monitor: applications with a language switcher (results cycle through valid 2- and 3-letter codes, invalid strings and the empty string, returned with the LANG flag) loaded/reloaded at arbitrary points, translations present for random subsets of templates and labels, language configured or not, in a third of the cases with a language-dependent pre-VM function (Engine.WithFirst). Every GetCode/FuncFor/function/GetTemplate/GetMenu callback of the session must carry exactly the model's language (context value \"Language\"), State.Language in the live state and decoded stored snapshot must equal it, and each page must equal the text composed from the translation table (translation if present, default otherwise). distinct = hash(app, history, driver); non-trivial = lookups under at least two different languages were observed. Gettext leg: resource.PoResource over generated locale trees (key -> default text for random subsets of template and menu keys, default text -> translation for random subsets per registered language) against a dictionary model: every (key, kind, context language) lookup - language absent, default, registered, never registered - must return the translation if one exists and the default-language text otherwise. DbResource leg: the same generated applications stored in a key-value store (mem, fs) behind resource.DbResource (bytecode, templates + translations, labels + translations, functions via AddLocalFunc), long-lived and persisted; every request must answer exactly as through the recording resource.",
 		Assumptions: []string{modelAssumption, "an empty string returned with LANG is documented as 'reset': what lookups carry afterwards is don't-care until the next valid code"}}
 }
 
